@@ -1,8 +1,10 @@
 #!/bin/bash
-# runs every registered check (tier $1, default quick) and prints one line per check
+# usage: runall.sh [tier [ID ...]] — runs every registered check (or the listed ones) and prints one line per check
 T=${1:-quick}
-for f in checks.d/C??.json; do
-  id=$(basename $f .json)
+shift
+ids="$@"
+[ -z "$ids" ] && ids=$(ls checks.d | sed 's/.json//')
+for id in $ids; do
   s=$(date +%s)
   out=$(./check $id --tier $T 2>&1)
   rc=$?
